@@ -1,10 +1,25 @@
 """C12, whole-simulation part: every task that completes under an enforcing planner does so by its deadline (exact runtimes)."""
+import json
+import os
+
+import core
 import simcheck
+import simcommon
 import simmon
 
 TRUSTED = simcheck.TRUSTED_SIM
 
 
 def run(ctx):
-    simcheck.run_sim_property(ctx, [], simmon.mon_c12,
+    seen = []
+    simcheck.run_sim_property(ctx, [], lambda r, w: simmon.mon_c12(r, w, seen),
                               "a task completed after its deadline in a run of a planner that enforces deadlines with exact runtimes", machine=False)
+    ctx.cov.setdefault("input_distribution", {})["late_completions_matching_known_finding_F40"] = len(seen)
+    for k in core.load_known():
+        if k.get("status") == "known" and k.get("property") == "C12" and k.get("id") == "F40":
+            w = json.load(open(os.path.join(core.ROOT, k["witness"])))
+            r = simcommon.run_worlds([w], jobs=1, chunk=1)[0]
+            hits = []
+            simmon.mon_c12(r, w, hits)
+            if hits:
+                ctx.known("F40", k["what_fails"])
